@@ -185,6 +185,13 @@ def candidates(mach):
                         out.append({"op": "set_ref", "space": p, "name": n, "value": {"t": "obj", "space": z.path()}, "mode": "relative",
                                     "why": "relref-outside-change"})
                         break
+        # a copy that has to stop half-way: a cells named like a model-level reference cannot be created in a new space
+        if "ZC" not in m.spaces and "ZC" not in m.refs:
+            names = sorted(n for n, (d, c) in dc.items() if d is s)
+            free = [n for n in names[1:] if n not in m.refs and n not in m.spaces]
+            if free:
+                # (not the first cells: something has been copied by the time the copy stops)
+                out.append({"op": "copy_space", "space": p, "name": "ZC", "block": free[-1], "why": "copy-stops-half-way"})
         sibs = [x for x in s.parent.spaces if x != s.name]
         others = sibs + (list(s.parent.refs) if hasattr(s.parent, "refs") else [])
         if others:
